@@ -86,6 +86,7 @@ def run(ctx):
     run_fn(ctx)
     for lvl, n in ((3, 90), (1, 30), (2, 30)):
         c01.run(ctx, focus='C09', post=post, n_quick=n, n_thorough=n * 25, force={'joliet': lvl})
+    c01.run(ctx, focus='C09', post=post, n_quick=50, n_thorough=1200, force={'joliet': 3}, reopen_every=5)
 
 
 def replay(ctx, obj):
